@@ -27,7 +27,7 @@ ASSUMPTIONS = [
     "Root/ChildResolverError.node must be the node at which the failing component was evaluated and ChildResolverError.child that component; messages are not compared",
 ]
 SEPS = ["/", "|", "::", "\\", "-", " ", "->", "x", " of "]
-ALPHABET = "abAB01.+*?[]()|^$\\ '\"\néÉжЖ漢/:-\u0301\u2000"  # incl. a combining accent and EN QUAD: text that Unicode normalisation would rewrite
+ALPHABET = "abAB01.+*?[]()|^$\\ '\"\néÉжЖ漢/:-\u0301\u2000{},"  # incl. braces (quantifier look-alikes), a combining accent and EN QUAD: text that Unicode normalisation would rewrite
 
 
 def flip_case(text, mask):
